@@ -22,6 +22,29 @@ type FakeHAProxy struct {
 	mu     sync.Mutex
 	Calls  []string
 	failIn int // > 0: the failIn-th admin call from now is refused with 503
+	holdN  int // > 0: the next holdN "PUT /manage_all" calls are held until released
+	held   chan chan struct{}
+}
+
+// HoldManageAll makes the next n "PUT /manage_all" calls (the call an update waits for before it installs its version)
+// block; each held call hands its release channel to Held().
+func (f *FakeHAProxy) HoldManageAll(n int) {
+	f.mu.Lock()
+	f.holdN = n
+	if f.held == nil {
+		f.held = make(chan chan struct{}, 16)
+	}
+	f.mu.Unlock()
+}
+
+// Held delivers the release channel of the next held call.
+func (f *FakeHAProxy) Held() <-chan chan struct{} {
+	f.mu.Lock()
+	defer f.mu.Unlock()
+	if f.held == nil {
+		f.held = make(chan chan struct{}, 16)
+	}
+	return f.held
 }
 
 // FailNext arms (k > 0) or disarms (k = 0) the refusal of the k-th admin call from now.
@@ -35,7 +58,17 @@ func (f *FakeHAProxy) ServeHTTP(w http.ResponseWriter, r *http.Request) {
 		f.failIn--
 		refuse = f.failIn == 0
 	}
+	var rel chan struct{}
+	if r.Method == http.MethodPut && r.URL.Path == "/manage_all" && f.holdN > 0 {
+		f.holdN--
+		rel = make(chan struct{})
+	}
+	held := f.held
 	f.mu.Unlock()
+	if rel != nil {
+		held <- rel
+		<-rel
+	}
 	if refuse {
 		w.WriteHeader(http.StatusServiceUnavailable)
 		return
@@ -82,6 +115,18 @@ func StartFake(ports ...string) *FakeHAProxy {
 // after the label, and one enabled global diagnosis (so that the diagnosis-free variant is distinguishable and
 // the proxy is told to manage everything).
 func PoliciesYAML(label string) []byte {
+	if NoDiagnosis {
+		return []byte(fmt.Sprintf(`global:
+  remedies:
+    - name: "%s"
+      enabled: false
+      config:
+        fixed_response:
+          status_code: 418
+  diagnosis: []
+endpoints: []
+`, label))
+	}
 	return []byte(fmt.Sprintf(`global:
   remedies:
     - name: "%s"
@@ -99,13 +144,17 @@ endpoints: []
 `, label))
 }
 
-// Describe projects policies onto (label, diagnosis-free).
+// NoDiagnosis: policies files without any enabled plugin (handler histories: the diagnosis worker and its timers stay
+// out of the way).
+var NoDiagnosis bool
+
+// Describe projects policies onto (label, built by a revert to the diagnosis-free configuration).
 func Describe(p *config.PoliciesData) (string, bool) {
 	label := ""
 	if len(p.Config.Global.Remedies) > 0 {
 		label = p.Config.Global.Remedies[0].Name
 	}
-	return label, len(p.Config.Global.Diagnosis) == 0
+	return label, p.VerifDiagnosisFree()
 }
 
 // Fixture is one accessor with its files.
